@@ -637,10 +637,13 @@ impl<'a> Parser<'a> {
     /// assert_eq!(parser.remainder(), "foo\n\t bar");
     ///
     /// ```
-    pub const fn trim(mut self) -> Self {
-        parsing! {self, FromBoth;
-            self.str = crate::string::trim(self.str);
-        }
+    pub const fn trim(self) -> Self {
+        // Only what's trimmed from the start moves `start_offset`,
+        // so the start is trimmed through `trim_start` and the end separately.
+        let mut this = self.trim_start();
+        this.str = crate::string::trim_end(this.str);
+        this.parse_direction = ParseDirection::FromBoth;
+        this
     }
 
     /// Removes whitespace from the start of the parsed string.
@@ -714,13 +717,17 @@ impl<'a> Parser<'a> {
     /// assert_eq!(parser.remainder(), "world");
     /// ```
     ///
-    pub const fn trim_matches<'p, P>(mut self, needle: P) -> Self
+    pub const fn trim_matches<'p, P>(self, needle: P) -> Self
     where
         P: Pattern<'p>,
     {
-        parsing! {self, FromBoth;
-            self.str = crate::string::trim_matches(self.str, needle);
-        }
+        // Only what's trimmed from the start moves `start_offset`,
+        // so the start is trimmed through `trim_start_matches` and the end separately.
+        let needle = crate::string::PatternNorm::new(needle);
+        let mut this = self.trim_start_matches(needle.as_str());
+        this.str = crate::string::trim_end_matches(this.str, needle.as_str());
+        this.parse_direction = ParseDirection::FromBoth;
+        this
     }
 
     /// Repeatedly removes all instances of `needle` from the start of the parsed string.
